@@ -112,6 +112,7 @@ namespace vsim
         bool active_since_poll = true;
         bool pending_write = false;
         uint64_t nsync = 0, nfn = 0;
+        uint64_t ndec = 0;  // scheduling decisions taken by this thread at sync points (key of 'S' deviations)
         int64_t preempt_countdown = 0;
         uint64_t prio = 0;
         bool in_job = false;
@@ -344,6 +345,10 @@ namespace vsim
     static SimThread* choose(SimThread* me, char cls, uint64_t count, bool only_preempt)
     {
         ++g_decisions;
+        // one hook may take several decisions (yield, then block on the model mutex, ...): key each
+        // 'S' decision by the deciding thread's own decision counter, so that replay is exact
+        if (cls == 'S')
+            count = ++me->ndec;
         // enabled sets
         int all[64];
         int nall = 0;
@@ -577,6 +582,7 @@ namespace vsim
         t->active_since_poll = true;
         t->pending_write = false;
         t->nsync = t->nfn = 0;
+        t->ndec = 0;
         t->preempt_countdown = 0;
         t->prio = 0;
         t->in_job = false;
